@@ -60,7 +60,8 @@ ConnectedAreNeighbours(conn, nbrs) == conn \subseteq nbrs
 
 CONSTANTS Peer,       \* the other nodes, as seen from the node under consideration
           Group,      \* group ids
-          MaxKnown    \* prune threshold of the known list (maxKnownPeers)
+          MaxKnown,   \* prune threshold of the known list (maxKnownPeers)
+          HsDirs      \* handshake directions distinguished ("in": HandshakeIncoming, "out": Handshake); same transition
 
 VARIABLES nbr,        \* direct neighbours
           grp,        \* Group -> group
@@ -100,7 +101,7 @@ Prune(g) == /\ grp[g].ex
 
 MNext == \/ \E p \in Peer : Connect(p) \/ Disconnect(p)
          \/ \E p \in Peer, gs \in SUBSET Group, j \in BOOLEAN : gs # {} /\ Notify(p, j, gs)
-         \/ \E p \in Peer, gs \in SUBSET Group, d \in {"in", "out"} : Handshake(p, gs, d)
+         \/ \E p \in Peer, gs \in SUBSET Group, d \in HsDirs : Handshake(p, gs, d)
          \/ \E g \in Group, p \in Peer, b \in BOOLEAN : Add(g, p, b) \/ Remove(g, p, b)
          \/ \E g \in Group : Prune(g)
 
